@@ -76,9 +76,7 @@ func VerifC17_step_add() {
 	ch := make(chan int, 2)
 	e.ins[k] = ch
 	e.removed[k] = false
-	calls := e.divCalls
 	d.addInput(ch, e.ps[k])
-	vAssert(e.divCalls == calls+1, "C17: the strategic division is recomputed on AddInput")
 	e.assertRegistered("after addInput")
 	vAssert(!d.inputs[e.ps[k]].Drained, "C17: a (re-)added input is not marked drained")
 	vReach("end")
@@ -110,9 +108,7 @@ func VerifC17_step_remove() {
 		}
 	}
 	// removing a priority that is not configured changes nothing
-	calls := e.divCalls
 	d.removeInput(e.foreign)
-	_ = calls
 	e.assertRegistered("after removeInput of an unknown priority")
 	vReach("end")
 }
